@@ -620,6 +620,11 @@ Proof.
   - injection Es as <-. reflexivity.
 Qed.
 
+Lemma pre_tree_unfold codes depth off t :
+  FO.pre_tree codes depth off t =
+  FO.root_die codes off depth t :: FO.on_list (FO.pre_tree codes (depth + 1)) (FO.tree_size codes) (FO.kids_off codes off t) (FO.t_kids t).
+Proof. destruct t. reflexivity. Qed.
+
 Lemma nodes_unfold t : FO.nodes t = t :: flat_map FO.nodes (FO.t_kids t).
 Proof. destruct t. reflexivity. Qed.
 
@@ -640,7 +645,9 @@ Section encT.
     ops_resolved f ops = FO.enc_tree (codes_of_tab tab) (wc_be cx) (pos - wc_unit_off cx) (T cx f d) /\
     ops_len ops = FO.tree_size (codes_of_tab tab) (T cx f d) /\
     Forall node_good (FO.nodes (T cx f d)) /\
-    Forall (FO.node_fits (codes_of_tab tab)) (FO.placed (codes_of_tab tab) (pos - wc_unit_off cx) (T cx f d)).
+    Forall (FO.node_fits (codes_of_tab tab)) (FO.placed (codes_of_tab tab) (pos - wc_unit_off cx) (T cx f d)) /\
+    (forall depth, map FO.d_offset (FO.pre_tree (codes_of_tab tab) depth (pos - wc_unit_off cx) (T cx f d)) =
+                   map (fun ip => snd ip - wc_unit_off cx) (ops_marks pos ops)).
 
   Lemma kidsT ch :
     Forall encT_stmt ch ->
@@ -652,19 +659,26 @@ Section encT.
       FO.sumN (map (FO.tree_size (codes_of_tab tab)) (map (T cx f) ch)) = ops_len cops /\
       Forall node_good (flat_map FO.nodes (map (T cx f) ch)) /\
       Forall (FO.node_fits (codes_of_tab tab))
-             (FO.on_list (FO.placed (codes_of_tab tab)) (FO.tree_size (codes_of_tab tab)) (p - wc_unit_off cx) (map (T cx f) ch)).
+             (FO.on_list (FO.placed (codes_of_tab tab)) (FO.tree_size (codes_of_tab tab)) (p - wc_unit_off cx) (map (T cx f) ch)) /\
+      (forall depth, map FO.d_offset (FO.on_list (FO.pre_tree (codes_of_tab tab) depth) (FO.tree_size (codes_of_tab tab))
+                                                 (p - wc_unit_off cx) (map (T cx f) ch)) =
+                     map (fun ip => snd ip - wc_unit_off cx) (ops_marks p cops)).
   Proof.
     induction 1 as [|c r Hc Hr IH]; intros p cops HW C D U B; cbn [write_list codes_ok_list dies_rd_ok map] in *.
-    - injection HW as <-. repeat split; constructor.
+    - injection HW as <-. repeat split; try constructor.
     - apply bind_ok_inv in HW. destruct HW as [o [Eo HW]]. apply bind_ok_inv in HW. destruct HW as [ro [Ero HW]].
       injection HW as <-. destruct C as [C1 C2]. destruct D as [D1 D2]. rewrite ops_len_app in B.
-      destruct (Hc p o Eo C1 D1 U ltac:(lia)) as [A1 [A2 [A3 A4]]].
-      destruct (IH (p + ops_len o) ro Ero C2 D2 ltac:(lia) ltac:(lia)) as [B1 [B2 [B3 B4]]].
+      destruct (Hc p o Eo C1 D1 U ltac:(lia)) as [A1 [A2 [A3 [A4 A5]]]].
+      destruct (IH (p + ops_len o) ro Ero C2 D2 ltac:(lia) ltac:(lia)) as [B1 [B2 [B3 [B4 B5]]]].
       rewrite !DieRdProofs.on_list_cons. rewrite <- A2.
       replace (p - wc_unit_off cx + ops_len o) with (p + ops_len o - wc_unit_off cx) by lia.
       rewrite <- A1, B1, ops_resolved_app, ops_len_app. cbn [FO.sumN fold_right flat_map].
       split; [reflexivity|]. split; [fold (FO.sumN (map (FO.tree_size (codes_of_tab tab)) (map (T cx f) r))); lia|].
-      split; [apply Forall_app; split; assumption|apply Forall_app; split; assumption].
+      split; [apply Forall_app; split; assumption|]. split; [apply Forall_app; split; assumption|].
+      intros depth. rewrite DieRdProofs.on_list_cons, map_app, ops_marks_app, map_app, A5. f_equal.
+      replace (p - wc_unit_off cx + FO.tree_size (codes_of_tab tab) (T cx f c)) with (p + ops_len o - wc_unit_off cx)
+        by (rewrite <- A2; lia).
+      apply B5.
   Qed.
 
   Lemma encT_all : forall d, encT_stmt d.
@@ -733,8 +747,12 @@ Section encT.
         rewrite !ops_resolved_cons. cbn [op_resolved op_bytes app]. rewrite app_nil_r, Ecb'. reflexivity. }
       split; [rewrite Hsz; lia|]. split.
       { rewrite nodes_unfold, Tkids. cbn [map flat_map]. constructor; [exact Hnode|constructor]. }
+      split.
       { rewrite DieRdProofs.placed_unfold, Tkids. cbn [map FO.on_list]. constructor; [|constructor].
         unfold FO.node_fits. cbn [fst snd]. rewrite Titems. apply Hfit_attrs. }
+      { intros depth. rewrite pre_tree_unfold, Tkids. cbn [map FO.on_list FO.root_die FO.d_offset].
+        cbn [ops_marks op_bytes]. rewrite blen_nil, N.add_0_r. rewrite (ops_marks_plain aops) by (eapply attrs_write_plain; eassumption).
+        reflexivity. }
     - (* node *)
       apply bind_ok_inv in HW. destruct HW as [cops [Ecops HW]].
       apply bind_ok_inv in HW. destruct HW as [sibb [Esibb HW]]. injection HW as <-.
@@ -749,8 +767,8 @@ Section encT.
       rewrite !ops_len_cons, !ops_len_app, ops_len_wb in *. cbn [op_bytes] in *. rewrite blen_nil, Ls in *.
       change (UnitWr.blen [x00]) with 1 in *.
       set (p0 := pos + (UnitWr.blen cb + (if sib then w else 0)) + ops_len aops) in *.
-      destruct (kidsT (c :: r) IH p0 cops Ecops Cl Dc ltac:(unfold p0; lia) ltac:(unfold p0; lia)) as [K1 [K2 [K3 K4]]].
-      fold codes in K1, K2, K4.
+      destruct (kidsT (c :: r) IH p0 cops Ecops Cl Dc ltac:(unfold p0; lia) ltac:(unfold p0; lia)) as [K1 [K2 [K3 [K4 K5]]]].
+      fold codes in K1, K2, K4, K5.
       assert (Lsibitem : FO.sumN (map FO.item_len (t_items cx f sib attrs)) = (if sib then w else 0) + ops_len aops).
       { unfold t_items. rewrite map_app, DieRdProofs.sumN_app, Litems. f_equal.
         destruct sib; [|reflexivity]. unfold sibw_of, w, wsz. destruct (e_fmt64 (wc_enc cx)); reflexivity. }
@@ -778,6 +796,16 @@ Section encT.
       split; [rewrite Hsz; lia|].
       split.
       { rewrite nodes_unfold, Tkids. constructor; [exact Hnode|exact K3]. }
+      split.
+      2:{ intros depth. rewrite pre_tree_unfold, Tkids, Hkids_off. cbn [map FO.root_die FO.d_offset]. rewrite K5.
+          cbn [ops_marks op_bytes]. rewrite blen_nil, N.add_0_r. cbn [map snd]. f_equal.
+          rewrite !ops_marks_app.
+          assert (Psib : forallb plain sibb = true).
+          { destruct sib; [binds; injection Esibb as <-|injection Esibb as <-]; reflexivity. }
+          rewrite (ops_marks_plain sibb) by exact Psib.
+          rewrite (ops_marks_plain aops) by (eapply attrs_write_plain; eassumption).
+          rewrite (ops_marks_plain [WB [x00]]) by reflexivity. cbn [app]. rewrite app_nil_r.
+          f_equal. f_equal. rewrite Ls. unfold p0. lia. }
       { rewrite DieRdProofs.placed_unfold, Tkids, Hkids_off. constructor; [|exact K4].
         unfold FO.node_fits. cbn [fst snd]. rewrite Titems. unfold t_items. apply Forall_app. split.
         + destruct sib; [|constructor]. constructor; [|constructor].
@@ -791,3 +819,256 @@ Section encT.
         + apply Hfit_attrs. }
   Qed.
 End encT.
+
+(* ------------------------------------------------------------------ the abbreviation table calculate_offsets builds *)
+
+Lemma av_form_range e v : 0 < fst (av_form e v) < two16.
+Proof.
+  destruct e as [ver fmt asz]. destruct v; cbn [av_form]; unfold word_form; cbn [e_ver e_fmt64];
+    repeat match goal with |- context [if ?c then _ else _] => destruct c end; cbn [fst]; vm_compute; split; reflexivity.
+Qed.
+
+Lemma attr_specs_wf dbg cx : forall attrs specs,
+  attr_specs dbg (wc_enc cx) attrs = Ok specs -> Forall (attr_rd_ok cx) attrs -> Forall spec_wf specs.
+Proof.
+  induction attrs as [|[n v] r IH]; intros specs H W; cbn [attr_specs] in H.
+  - injection H as <-. constructor.
+  - destruct (av_form (wc_enc cx) v) as [form ic] eqn:EF.
+    apply bind_ok_inv in H. destruct H as [s [Es H]]. apply bind_ok_inv in H. destruct H as [rs [Ers H]].
+    injection H as <-. inversion W as [|? ? W1 W2]; subst. constructor; [|now apply IH].
+    destruct (aspec_new_ok _ _ _ _ _ Es) as [S1 [S2 S3]]. destruct W1 as [Hn [_ [_ [Ty _]]]]. cbn [fst snd] in *.
+    unfold spec_wf. rewrite S1, S2, S3. split; [exact Hn|].
+    assert (R := av_form_range (wc_enc cx) v). rewrite EF in R. cbn [fst] in R. split; [exact R|].
+    unfold aspec_new in Es. apply bind_ok_inv in Es. destruct Es as [u0 [_ _]].
+    destruct ic as [z|].
+    + destruct v; cbn [av_form] in EF; repeat match type of EF with context [if ?c then _ else _] => destruct c end;
+        try discriminate. injection EF as <- <-. split; [exact Ty|]. intros Q. exfalso. apply Q. reflexivity.
+    + split; [lia|reflexivity].
+Qed.
+
+Lemma die_abbrev_wf dbg cx id tag sib attrs ch ab :
+  die_abbrev dbg (wc_enc cx) (Die id tag sib attrs ch) = Ok ab ->
+  0 < tag < two16 -> Forall (attr_rd_ok cx) attrs -> abbrev_wf ab.
+Proof.
+  intros H Ht W. unfold die_abbrev in H.
+  apply bind_ok_inv in H. destruct H as [sibspec [Es H]]. apply bind_ok_inv in H. destruct H as [specs [Esp H]].
+  injection H as <-. split; [exact Ht|]. cbn [ab_attrs]. apply Forall_app. split; [|eapply attr_specs_wf; eassumption].
+  destruct (sib && has_kids ch); [|injection Es as <-; constructor].
+  apply bind_ok_inv in Es. destruct Es as [s [E1 Es]]. injection Es as <-.
+  destruct (aspec_new_ok _ _ _ _ _ E1) as [S1 [S2 S3]]. constructor; [|constructor].
+  unfold spec_wf. rewrite S1, S2, S3. unfold word_form. destruct (e_fmt64 (wc_enc cx)); repeat split; (reflexivity || discriminate).
+Qed.
+
+Definition tab_inv (l : list abbrev) : Prop := NoDup l /\ Forall abbrev_wf l.
+
+Lemma abbrev_add_inv tab a code tab' : abbrev_add tab a = (code, tab') -> tab_inv tab -> abbrev_wf a -> tab_inv tab'.
+Proof.
+  unfold abbrev_add. intros H [ND W] Wa. destruct (abbrev_find tab a) eqn:F; injection H as <- <-; [now split|].
+  split; [apply NoDup_snoc; [exact ND|now apply abbrev_find_none]|].
+  apply Forall_app. split; [exact W|constructor; [exact Wa|constructor]].
+Qed.
+
+Lemma calc_list_tab_inv dbg cx ch :
+  Forall (fun d => forall st st', calc dbg (wc_enc cx) (wc_lpv cx) d st = Ok st' -> die_rd_ok cx d ->
+                   tab_inv (cs_abbrevs st) -> tab_inv (cs_abbrevs st')) ch ->
+  forall st st', calc_list dbg (wc_enc cx) (wc_lpv cx) ch st = Ok st' -> dies_rd_ok cx ch ->
+                 tab_inv (cs_abbrevs st) -> tab_inv (cs_abbrevs st').
+Proof.
+  induction 1 as [|c r Hc Hr IH]; intros st st' H D I; cbn [calc_list dies_rd_ok] in *.
+  - now injection H as <-.
+  - apply bind_ok_inv in H. destruct H as [sA [EA H]]. destruct D as [D1 D2]. eapply IH; eauto.
+Qed.
+
+Lemma calc_tab_inv dbg cx : forall d st st',
+  calc dbg (wc_enc cx) (wc_lpv cx) d st = Ok st' -> die_rd_ok cx d ->
+  tab_inv (cs_abbrevs st) -> tab_inv (cs_abbrevs st').
+Proof.
+  induction d as [id tag sib attrs ch IH] using die_ind2. intros st st' H D I.
+  rewrite die_rd_ok_unfold in D. destruct D as [Dt [Da Dc]].
+  rewrite calc_unfold in H.
+  apply bind_ok_inv in H. destruct H as [ents [_ H]].
+  apply bind_ok_inv in H. destruct H as [ab [Eab H]].
+  destruct (abbrev_add (cs_abbrevs st) ab) as [code tab] eqn:EA.
+  apply bind_ok_inv in H. destruct H as [codes [_ H]].
+  apply bind_ok_inv in H. destruct H as [sz [_ H]].
+  apply bind_ok_inv in H. destruct H as [off1 [_ H]]. cbv zeta in H.
+  assert (I1 : tab_inv tab).
+  { eapply abbrev_add_inv; [exact EA|exact I|]. eapply die_abbrev_wf; eassumption. }
+  destruct ch as [|c r].
+  - now injection H as <-.
+  - apply bind_ok_inv in H. destruct H as [st2 [E2 H]].
+    apply bind_ok_inv in H. destruct H as [off2 [_ H]]. injection H as <-. cbn [cs_abbrevs].
+    eapply (calc_list_tab_inv dbg cx (c :: r) IH); [exact E2|exact Dc|exact I1].
+Qed.
+
+(* attr_rd_ok contains what offsets_exact / roundtrip ask of expressions and strings *)
+Lemma die_rd_ok_expr cx : forall d, die_rd_ok cx d -> die_expr_ok d /\ die_decodable d.
+Proof.
+  induction d as [id tag sib attrs ch IH] using die_ind2. intros D.
+  rewrite die_rd_ok_unfold in D. destruct D as [_ [Da Dc]].
+  rewrite die_expr_ok_unfold, die_decodable_unfold.
+  assert (A : Forall (fun p => expr_ok (snd p)) attrs /\ Forall (fun p => av_decodable (snd p)) attrs).
+  { split; eapply Forall_impl; try exact Da; intros [n v] [_ [_ [X _]]]; cbn [snd] in *; [|exact X].
+    destruct v; try exact I. exact X. }
+  assert (K : dies_expr_ok ch /\ dies_decodable ch).
+  { clear - IH Dc. induction IH as [|c r Hc Hr IHr]; cbn [dies_expr_ok dies_decodable dies_rd_ok] in *; [tauto|].
+    destruct Dc as [D1 D2]. destruct (Hc D1). destruct (IHr D2). tauto. }
+  tauto.
+Qed.
+
+(* length of the unit header Unit::write emits = Forest.header_len of a compile unit header *)
+Lemma header_len_cu ver fmt asz aoff : 2 <= ver <= 5 ->
+  FO.header_len (FO.mkUH ver fmt asz FO.UCompile aoff) =
+  (if fmt then 12 else 4) + 2 + (if fmt then 8 else 4) + (if ver =? 5 then 2 else 1).
+Proof.
+  intros Hv. unfold FO.header_len, FO.enc_header, FO.enc_initial_length, FO.enc_header_fields, FO.nlen.
+  cbn [FO.uh_version FO.uh_fmt64 FO.uh_asize FO.uh_type FO.uh_abbrev_off FO.enc_utype].
+  destruct (ver =? 5); destruct fmt; cbn [FO.word];
+    repeat rewrite app_length; repeat rewrite DieRdProofs.enc_fixed_length; cbn [length]; lia.
+Qed.
+
+(* ------------------------------------------------------------------ (c) the unit read by the raw entry reader *)
+
+Lemma ops_marks_len : forall ops p q, length (ops_marks p ops) = length (ops_marks q ops).
+Proof.
+  induction ops as [|o r IH]; intros p q; cbn [ops_marks]; [reflexivity|].
+  destruct o; cbn [length]; try apply IH. f_equal. apply IH.
+Qed.
+
+Theorem unit_read_by_reader_lemma dbg dbg' cx root st0 st ops (f : eid -> list byte) abytes rest types ruoff aoff :
+  let e := wc_enc cx in
+  let h := FO.mkUH (e_ver e) (e_fmt64 e) (e_asz e) FO.UCompile aoff in
+  let codes := codes_of_tab (cs_abbrevs st) in
+  let body := ops_resolved f ops in
+  (* the two passes of Unit::write, run on a fresh abbreviation table, and the table it hands to
+     AbbreviationTable::write *)
+  calc dbg e (wc_lpv cx) root st0 = Ok st -> cs_abbrevs st0 = [] ->
+  wc_codes cx = cs_codes st ->
+  write_die dbg cx root (cs_off st0) = Ok ops ->
+  abbrevs_write (cs_abbrevs st) = Ok abytes ->
+  (* the tree *)
+  NoDup (die_ids root) -> die_rd_ok cx root ->
+  (forall id, UnitWr.blen (f id) = wsz e) ->
+  (* the header: a version the writer accepts, an address size the reader accepts, entries start right
+     after it *)
+  2 <= e_ver e <= 5 -> AttrProofs.addr_size_ok (renc cx) ->
+  wc_unit_off cx <= cs_off st0 -> cs_off st0 - wc_unit_off cx = FO.header_len h ->
+  cs_off st0 + ops_len ops < two63 ->
+  exists tbl,
+    AR.parse_abbrevs dbg' (abytes ++ rest) = Ok (tbl, rest) /\
+    body = FO.enc_forest codes (wc_be cx) (FO.header_len h) [T cx f root] 0 /\
+    DR.read_all_raw dbg' (DieRdProofs.parsed_header (wc_be cx) types ruoff h body) tbl None =
+      Ok (FO.raw_seq codes (FO.header_len h) [T cx f root] 0, None) /\
+    filter DieRdProofs.not_null (FO.raw_seq codes (FO.header_len h) [T cx f root] 0) =
+      FO.preorder codes (FO.header_len h) 0 [T cx f root] /\
+    map FO.d_offset (FO.preorder codes (FO.header_len h) 0 [T cx f root]) =
+      map (fun ip => snd ip - wc_unit_off cx) (ops_marks (cs_off st0) ops) /\
+    map fst (ops_marks (cs_off st0) ops) = die_ids root /\
+    (forall i p, In (i, p) (ops_marks (cs_off st0) ops) -> nth_error (cs_entries st) i = Some p).
+Proof.
+  intros e h codes body HC H0 Hcodes HW HAb ND DR Hf Hver HA HU Hh HB.
+  destruct (die_rd_ok_expr cx root DR) as [HX HD].
+  assert (HB64 : cs_off st0 + ops_len ops < 2 ^ 64).
+  { eapply N.lt_trans; [exact HB|]. reflexivity. }
+  destruct (offsets_exact_lemma dbg cx root st0 st ops HC Hcodes HW ND HX HB64) as [O1 [O2 O3]].
+  (* the table *)
+  assert (TI : tab_inv (cs_abbrevs st)).
+  { eapply calc_tab_inv; [exact HC|exact DR|]. rewrite H0. split; constructor. }
+  destruct TI as [NDt Wt].
+  assert (CK : codes_ok dbg cx (cs_abbrevs st) root).
+  { eapply calc_codes_ok; [exact HC|apply tab_ext_refl| |exact ND]. intros i _. now rewrite Hcodes. }
+  (* number of abbreviations <= number of bytes *)
+  assert (Hlen : N.of_nat (length (cs_abbrevs st)) < two64).
+  { assert (forall d s s', calc dbg e (wc_lpv cx) d s = Ok s' ->
+              N.of_nat (length (cs_abbrevs s')) <= N.of_nat (length (cs_abbrevs s)) + N.of_nat (length (die_ids d))) as G.
+    { induction d as [id tag sib attrs ch IH] using die_ind2. intros s s' H.
+      rewrite calc_unfold in H.
+      apply bind_ok_inv in H. destruct H as [ents [_ H]]. apply bind_ok_inv in H. destruct H as [ab [_ H]].
+      destruct (abbrev_add (cs_abbrevs s) ab) as [code tab] eqn:EA.
+      apply bind_ok_inv in H. destruct H as [cds [_ H]]. apply bind_ok_inv in H. destruct H as [sz [_ H]].
+      apply bind_ok_inv in H. destruct H as [off1 [_ H]]. cbv zeta in H.
+      assert (L1 : N.of_nat (length tab) <= N.of_nat (length (cs_abbrevs s)) + 1).
+      { unfold abbrev_add in EA. destruct (abbrev_find (cs_abbrevs s) ab); injection EA as <- <-; [lia|rewrite app_length; cbn [length]; lia]. }
+      cbn [die_ids length].
+      destruct ch as [|c r]; [injection H as <-; cbn [cs_abbrevs flat_map length]; lia|].
+      apply bind_ok_inv in H. destruct H as [st2 [E2 H]]. apply bind_ok_inv in H. destruct H as [off2 [_ H]].
+      injection H as <-. cbn [cs_abbrevs].
+      assert (GL : forall l s1 s2, Forall (fun d => forall s s', calc dbg e (wc_lpv cx) d s = Ok s' ->
+                      N.of_nat (length (cs_abbrevs s')) <= N.of_nat (length (cs_abbrevs s)) + N.of_nat (length (die_ids d))) l ->
+                    calc_list dbg e (wc_lpv cx) l s1 = Ok s2 ->
+                    N.of_nat (length (cs_abbrevs s2)) <= N.of_nat (length (cs_abbrevs s1)) + N.of_nat (length (flat_map die_ids l))).
+      { induction l as [|x l IHl]; intros s1 s2 F Hl; cbn [calc_list] in Hl; [injection Hl as <-; lia|].
+        apply bind_ok_inv in Hl. destruct Hl as [sA [EA' Hl]]. inversion F; subst.
+        cbn [flat_map]. rewrite app_length. specialize (IHl _ _ ltac:(assumption) Hl).
+        match goal with Hx : forall s s', calc _ _ _ x s = Ok s' -> _ |- _ => specialize (Hx _ _ EA') end. lia. }
+      specialize (GL _ _ _ IH E2). cbn [cs_abbrevs] in GL. lia. }
+    specialize (G _ _ _ HC). rewrite H0 in G. cbn [length] in G.
+    (* one mark per entry, each at a distinct position below 2^63 *)
+    assert (Lm : N.of_nat (length (die_ids root)) <= ops_len ops).
+    { rewrite <- O2, map_length.
+      clear - HW CK Hf. (* every entry writes at least one byte before the next mark *)
+      revert HW CK. generalize (cs_off st0) as pos. revert ops.
+      induction root as [id tag sib attrs ch IH] using die_ind2. intros ops pos HW CK.
+      destruct (write_die_first_byte dbg cx f (cs_abbrevs st) _ _ _ HW CK) as [_ [_ [_ [_ L1]]]].
+      rewrite write_die_unfold in HW.
+      apply bind_ok_inv in HW. destruct HW as [u0 [_ HW]]. apply bind_ok_inv in HW. destruct HW as [code [Ecode HW]].
+      apply bind_ok_inv in HW. destruct HW as [cb [Ecb HW]]. cbv zeta in HW.
+      apply bind_ok_inv in HW. destruct HW as [aops [Ea HW]].
+      rewrite codes_ok_unfold in CK. destruct CK as [[code' [ab [C1 [_ C3]]]] Cl].
+      assert (Pa := attrs_write_plain _ _ _ _ Ea).
+      assert (Lcb : 1 <= UnitWr.blen cb).
+      { unfold idx_get, unwrap in Ecode. rewrite C1 in Ecode. injection Ecode as <-.
+        destruct (uleb_first_byte code' cb Ecb (abbrev_lookup_nonzero _ _ _ C3)) as [b [r' [-> _]]]. rewrite blen_cons. lia. }
+      destruct ch as [|c r].
+      - injection HW as <-. cbn [ops_marks op_bytes length]. rewrite blen_nil, N.add_0_r.
+        rewrite (ops_marks_plain aops) by exact Pa. cbn [length]. rewrite !ops_len_cons. cbn [op_bytes]. lia.
+      - apply bind_ok_inv in HW. destruct HW as [cops [Ec HW]]. apply bind_ok_inv in HW. destruct HW as [sibb [Es HW]].
+        injection HW as <-.
+        assert (Psib : forallb plain sibb = true).
+        { destruct (sib && has_kids (c :: r)); [binds; injection Es as <-|injection Es as <-]; reflexivity. }
+        cbn [ops_marks op_bytes length]. rewrite blen_nil, N.add_0_r. rewrite !ops_marks_app.
+        rewrite (ops_marks_plain sibb) by exact Psib. rewrite (ops_marks_plain aops) by exact Pa.
+        rewrite (ops_marks_plain [WB [x00]]) by reflexivity. cbn [app]. rewrite app_nil_r.
+        rewrite !ops_len_cons, !ops_len_app. cbn [op_bytes].
+        assert (KL : forall l p o, Forall (fun d => forall ops pos, write_die dbg cx d pos = Ok ops ->
+                         codes_ok dbg cx (cs_abbrevs st) d -> N.of_nat (length (ops_marks pos ops)) <= ops_len ops) l ->
+                       write_list dbg cx l p = Ok o -> codes_ok_list dbg cx (cs_abbrevs st) l ->
+                       N.of_nat (length (ops_marks p o)) <= ops_len o).
+        { induction l as [|x l IHl]; intros p o F Hl Cl'; cbn [write_list codes_ok_list] in *; [injection Hl as <-; cbn; rewrite ops_len_nil; lia|].
+          apply bind_ok_inv in Hl. destruct Hl as [ox [Ex Hl]]. apply bind_ok_inv in Hl. destruct Hl as [ol [El Hl]].
+          injection Hl as <-. inversion F; subst. destruct Cl' as [Cx Cl']. rewrite ops_marks_app, app_length, ops_len_app.
+          specialize (IHl _ _ ltac:(assumption) El Cl').
+          match goal with Hx : forall ops pos, write_die _ _ x pos = Ok ops -> _ |- _ => specialize (Hx _ _ Ex Cx) end. lia. }
+        specialize (KL _ _ _ IH Ec Cl). cbn [length]. change (UnitWr.blen [x00]) with 1.
+        rewrite (ops_marks_len cops _ (pos + (UnitWr.blen cb + (if sib && has_kids (c :: r) then wsz (wc_enc cx) else 0)) + ops_len aops)). lia. }
+    unfold two63, two64 in *. lia. }
+  destruct (abbrevs_read_by_reader_lemma dbg' (cs_abbrevs st) abytes rest HAb Wt Hlen) as [tbl [P1 [P2 _]]].
+  exists tbl. split; [exact P1|].
+  destruct (encT_all dbg cx f (cs_abbrevs st) tbl NDt P2 Hf Hlen root (cs_off st0) ops HW CK DR HU HB64)
+    as [E1 [E2 [E3 [E4 E5]]]].
+  fold codes in E1, E2, E4, E5. rewrite Hh in E1, E4, E5.
+  assert (Hbody : body = FO.enc_forest codes (wc_be cx) (FO.header_len h) [T cx f root] 0).
+  { unfold FO.enc_forest. cbn [FO.on_list repeat]. rewrite !app_nil_r. exact E1. }
+  split; [exact Hbody|].
+  assert (Hok : FO.forest_ok codes (renc cx) [T cx f root]).
+  { unfold FO.forest_ok, FO.forest_nodes. cbn [flat_map]. rewrite app_nil_r.
+    eapply Forall_impl; [|exact E3]. intros t [G _]. exact G. }
+  assert (Hcov : DieRdProofs.all_covered tbl codes [T cx f root]).
+  { unfold DieRdProofs.all_covered, FO.forest_nodes. cbn [flat_map]. rewrite app_nil_r.
+    eapply Forall_impl; [|exact E3]. intros t [_ G]. exact G. }
+  assert (Hfit : FO.sibs_fit codes (FO.header_len h) [T cx f root]).
+  { unfold FO.sibs_fit. cbn [FO.on_list]. rewrite app_nil_r. exact E4. }
+  split.
+  { rewrite Hbody.
+    apply (DieRdProofs.raw_is_preorder dbg' (wc_be cx) types ruoff h codes [T cx f root] 0 tbl); try assumption.
+    - rewrite <- Hbody. unfold body.
+      replace (FO.nlen (ops_resolved f ops)) with (ops_len ops).
+      + unfold two63 in *. lia.
+      + symmetry. apply (ops_resolved_len f (wsz e)); [exact Hf|]. eapply write_die_refw; eassumption.
+    - rewrite <- Hbody. unfold body. intros Hnil.
+      destruct (write_die_first_byte dbg cx f (cs_abbrevs st) root _ _ HW CK) as [b [r' [Eb _]]]. rewrite Hnil in Eb. discriminate. }
+  split; [apply (DieRdProofs.raw_seq_preorder codes (renc cx)); exact Hok|].
+  split.
+  { unfold FO.preorder. cbn [FO.on_list]. rewrite app_nil_r. apply E5. }
+  split; [exact O2|exact O3].
+Qed.
